@@ -360,7 +360,7 @@ example : (run witnessInit (witnessSched.take 9)).sh.dirty 0 0 = true
 def exact_reader_statement : Prop :=
   ∀ (n L Iv t0 clock : Nat) (progs : List (List OpSpec)) (s : List Entry) (ev tr k : Nat),
     let c := run (fresh n L Iv t0 clock progs) s
-    c.allFinished = true → (∀ i j, c.sh.lost i j = 0) → 0 < tr → 0 < n →
+    c.allFinished = true → (∀ i j, c.sh.lost i j = 0) → 0 < tr → 0 < n → ev < nEv →
     ((run (nextRound c tr [[.viewsum ev]]) (List.replicate k (.step 0))).th[0]?.map fun t => t.finished) = some true →
     ((run (nextRound c tr [[.viewsum ev]]) (List.replicate k (.step 0))).th[0]?.map fun t => t.res.map (·.val))
       = some [some (((List.range n).filter fun j =>
